@@ -377,7 +377,7 @@ def run(ctx):
             ctx.notes.append("known finding %s names refuted_theorem %s, which is not among the theorems of %s" % (e["id"], rt, PROPS))
 
     # ---- the fuzz run (SEARCH)
-    budget = 720 if thorough else 42
+    budget = 720 if thorough else 40
     outjson = os.path.join(d, "fuzz.json")
     cmd = [binp, "-seed", str(ctx.seed), "-workers", "8", "-budget", str(budget), "-timeout", str(timeout_s), "-memlimit", "4096",
            "-c03dir", c03dir, "-out", outjson, "-findingsdir", fdir, "-repo", vlib.REPO, "-minimize", "60" if thorough else "6"]
@@ -386,6 +386,11 @@ def run(ctx):
     if rc != 0 or not os.path.exists(outjson):
         raise RuntimeError("fuzzextract failed: " + out[-3000:])
     fz = json.load(open(outjson))
+    sysp = fz.get("systematic_pass") or {}
+    ctx.log("systematic pass (deterministic, before the budgeted random phase): value_edit_cases=%s line_edit_cases=%s unmutated_seed_cases=%s complete=%s handed out after %ss"
+            % (sysp.get("value_edit_cases"), sysp.get("line_edit_cases"), sysp.get("unmutated_seed_cases"), sysp.get("handed_out_completely"), sysp.get("handout_finished_after_s")))
+    if not sysp.get("handed_out_completely"):
+        raise RuntimeError("fuzzextract did not hand out the complete systematic pass")
 
     # ---- verdict
     new, known_hits, unconfirmed = [], {}, []
@@ -427,7 +432,7 @@ def run(ctx):
     per = {}
     for name, s in fz["per_extractor"].items():
         per[name] = {k: s[k] for k in ("calls", "ok", "ok_with_packages", "errors", "panics", "timeouts", "worker_deaths", "distinct_inputs",
-                                       "nontrivial", "path_not_required", "seeds", "seed_source_calls", "paths_used", "cpu_s")}
+                                       "nontrivial", "path_not_required", "seeds", "seed_source_calls", "paths_used", "cpu_s", "systematic_cases")}
     samples = list(fz.get("samples") or [])[:10]
     for f in fz["findings"][:4]:
         samples.append({"extractor": f["extractor"], "path": f["path"], "mutation_trail": f["mutation_trail"], "seed_file": f["seed_file"],
@@ -442,6 +447,7 @@ def run(ctx):
         "exhaustive": False,
         "input_distribution": {"per_extractor": per, "mutation_operators": fz["mutation_histogram"], "input_sizes": fz["input_size_histogram"],
                                "seed_files": fz["seed_files"], "totals": tot},
+        "systematic_pass": sysp,
         "fuzz": {"extractors_fuzzed": fz["extractors_fuzzed"], "skipped_extractors": fz["skipped_extractors"], "budget_s": budget,
                  "timeout_s": timeout_s, "memlimit_mib": 4096, "workers": 8, "calls_per_second": fz["calls_per_second"],
                  "wall_s": fz["wall_s"], "worker_restarts": fz["worker_restarts"],
